@@ -121,3 +121,65 @@ macro_rules! with_mt {
         }
     }};
 }
+
+// ---------------------------------------------------------------------------------------------
+// multi-option families (enum field types)
+// ---------------------------------------------------------------------------------------------
+pub struct VariantOutcome {
+    pub ser: String,
+    pub json: Value,
+    pub variant_tag: Option<String>,
+}
+
+fn run_variant<T: SwiftField>(content: &str, variant: Option<&str>, base: &str, heuristic: bool) -> Result<VariantOutcome, String> {
+    let r = if heuristic { T::parse(content) } else { T::parse_with_variant(content, variant, Some(base)) };
+    match r {
+        Ok(v) => Ok(VariantOutcome {
+            ser: v.to_swift_string(),
+            json: serde_json::to_value(&v).unwrap_or(Value::Null),
+            variant_tag: v.get_variant_tag().map(|s| s.to_string()),
+        }),
+        Err(e) => Err(e.to_string()),
+    }
+}
+
+macro_rules! family_table {
+    ($( $name:literal => ($ty:ty, $base:literal, [$($l:literal),*]) ),* $(,)?) => {
+        /// (family name, base tag, option letters; "" = no letter)
+        pub const FAMILIES: &[(&str, &str, &[&str])] = &[$(($name, $base, &[$($l),*])),*];
+        /// parse `content` as family `name`: with the given option letter, or heuristically
+        pub fn parse_family(name: &str, content: &str, variant: Option<&str>, heuristic: bool) -> Option<Result<VariantOutcome, String>> {
+            match name {
+                $( $name => Some(run_variant::<$ty>(content, variant, $base, heuristic)), )*
+                _ => None,
+            }
+        }
+    };
+}
+
+family_table! {
+    "Field50InstructingParty" => (Field50InstructingParty, "50", ["C", "L"]),
+    "Field50OrderingCustomerFGH" => (Field50OrderingCustomerFGH, "50", ["F", "G", "H"]),
+    "Field50OrderingCustomerAFK" => (Field50OrderingCustomerAFK, "50", ["A", "F", "K"]),
+    "Field50OrderingCustomerNCF" => (Field50OrderingCustomerNCF, "50", ["", "C", "F"]),
+    "Field50Creditor" => (Field50Creditor, "50", ["A", "K"]),
+    "Field52AccountServicingInstitution" => (Field52AccountServicingInstitution, "52", ["A", "C"]),
+    "Field52OrderingInstitution" => (Field52OrderingInstitution, "52", ["A", "D"]),
+    "Field52CreditorBank" => (Field52CreditorBank, "52", ["A", "C", "D"]),
+    "Field52DrawerBank" => (Field52DrawerBank, "52", ["A", "B", "D"]),
+    "Field53SenderCorrespondent" => (Field53SenderCorrespondent, "53", ["A", "B", "D"]),
+    "Field54ReceiverCorrespondent" => (Field54ReceiverCorrespondent, "54", ["A", "B", "D"]),
+    "Field55ThirdReimbursementInstitution" => (Field55ThirdReimbursementInstitution, "55", ["A", "B", "D"]),
+    "Field56Intermediary" => (Field56Intermediary, "56", ["A", "C", "D"]),
+    "Field56IntermediaryAD" => (Field56IntermediaryAD, "56", ["A", "D"]),
+    "Field57" => (Field57, "57", ["A", "B", "C", "D"]),
+    "Field57DebtInstitution" => (Field57DebtInstitution, "57", ["A", "B", "D"]),
+    "Field58" => (Field58, "58", ["A", "D"]),
+    "Field59" => (Field59, "59", ["", "A", "F"]),
+    "Field59Debtor" => (Field59Debtor, "59", ["", "A"]),
+    "Field32" => (Field32, "32", ["A", "B", "C", "D"]),
+    "Field32AB" => (Field32AB, "32", ["A", "B"]),
+    "Field32AmountCD" => (Field32AmountCD, "32", ["C", "D"]),
+    "Field60" => (Field60, "60", ["F", "M"]),
+    "Field62" => (Field62, "62", ["F", "M"]),
+}
